@@ -89,6 +89,9 @@ CheckFormats(r) ==
      /\ Chk("C14_Quality", 0, ~r.has.quality \/ Range(r.quality) = {<<v[1], v[2], v[3], v[4], v[6]>> : v \in S})
      /\ Chk("C14_ExitIffError", 0, r.exit = (IF r.procErr \/ \E v \in S : isErr(v) THEN 1 ELSE 0))
      /\ Chk("C19_NoCrash", 0, r.status = "ok")
+     \* every file of the command line has its entry, in command-line order, in the JSON file and in the JUnit file
+     /\ Chk("C14_JsonListsEveryFileInOrder", 0, ~r.has.json \/ r.stopped \/ r.jsonFiles = r.cmdFiles)
+     /\ Chk("C14_JUnitListsEveryFileInOrder", 0, ~r.has.junit \/ r.stopped \/ r.junitFiles = r.cmdFiles)
 
 \* ---------------------------------------------------------------------------------------------------- fix_only (C20)
 CheckFixOnly(r) ==
